@@ -1069,3 +1069,42 @@ package graphql
 //@   ensures typeis(p.Node, "*ast.FragmentDefinition") && as(p.Node, "*ast.FragmentDefinition") != nil && as(p.Node, "*ast.FragmentDefinition").Name != nil && !old(has(knownFragmentNames, as(p.Node, "*ast.FragmentDefinition").Name.Value)) ==> calls("reportError") == 0 && has(knownFragmentNames, as(p.Node, "*ast.FragmentDefinition").Name.Value) && knownFragmentNames[as(p.Node, "*ast.FragmentDefinition").Name.Value] == as(p.Node, "*ast.FragmentDefinition").Name
 //@   ensures !typeis(p.Node, "*ast.FragmentDefinition") ==> calls("reportError") == 0
 //@   at call reportError: assert arg0 == context && len(arg2) == 2 && typeis(arg2[1], "*ast.Name") && as(arg2[1], "*ast.Name") == node.Name && typeis(arg2[0], "*ast.Name") && as(arg2[0], "*ast.Name") == nameAST
+
+// the other uniqueness rules, same shape; the scope-opening callbacks start from an empty table
+//@ func UniqueArgumentNamesRule$3
+//@   props C02
+//@   nosafety
+//@   assigns class:M|string|*ast.Name, class:graphql.ValidationContext, class:E|
+//@   ensures typeis(p.Node, "*ast.Argument") && as(p.Node, "*ast.Argument") != nil && as(p.Node, "*ast.Argument").Name != nil && old(has(knownArgNames, as(p.Node, "*ast.Argument").Name.Value)) ==> calls("reportError") == 1
+//@   ensures typeis(p.Node, "*ast.Argument") && as(p.Node, "*ast.Argument") != nil && as(p.Node, "*ast.Argument").Name != nil && !old(has(knownArgNames, as(p.Node, "*ast.Argument").Name.Value)) ==> calls("reportError") == 0 && has(knownArgNames, as(p.Node, "*ast.Argument").Name.Value) && knownArgNames[as(p.Node, "*ast.Argument").Name.Value] == as(p.Node, "*ast.Argument").Name
+//@   ensures !typeis(p.Node, "*ast.Argument") ==> calls("reportError") == 0
+//@   at call reportError: assert arg0 == context && len(arg2) == 2 && typeis(arg2[0], "*ast.Name") && as(arg2[0], "*ast.Name") == nameAST
+//@ func UniqueVariableNamesRule$2
+//@   props C02
+//@   nosafety
+//@   assigns class:M|string|*ast.Name, class:graphql.ValidationContext, class:E|
+//@   ensures typeis(p.Node, "*ast.VariableDefinition") && as(p.Node, "*ast.VariableDefinition") != nil && as(p.Node, "*ast.VariableDefinition").Variable != nil && as(p.Node, "*ast.VariableDefinition").Variable.Name != nil && old(has(knownVariableNames, as(p.Node, "*ast.VariableDefinition").Variable.Name.Value)) ==> calls("reportError") == 1
+//@   ensures typeis(p.Node, "*ast.VariableDefinition") && as(p.Node, "*ast.VariableDefinition") != nil && as(p.Node, "*ast.VariableDefinition").Variable != nil && as(p.Node, "*ast.VariableDefinition").Variable.Name != nil && !old(has(knownVariableNames, as(p.Node, "*ast.VariableDefinition").Variable.Name.Value)) ==> calls("reportError") == 0 && has(knownVariableNames, as(p.Node, "*ast.VariableDefinition").Variable.Name.Value) && knownVariableNames[as(p.Node, "*ast.VariableDefinition").Variable.Name.Value] == as(p.Node, "*ast.VariableDefinition").Variable.Name
+//@   ensures !typeis(p.Node, "*ast.VariableDefinition") ==> calls("reportError") == 0
+//@   at call reportError: assert arg0 == context && len(arg2) == 2 && typeis(arg2[0], "*ast.Name") && as(arg2[0], "*ast.Name") == nameAST
+//@ func UniqueArgumentNamesRule$1
+//@   props C02
+//@   nosafety
+//@   ensures len(knownArgNames) == 0 && fresh(knownArgNames)
+//@ func UniqueArgumentNamesRule$2
+//@   props C02
+//@   nosafety
+//@   ensures len(knownArgNames) == 0 && fresh(knownArgNames)
+//@ func UniqueVariableNamesRule$1
+//@   props C02
+//@   nosafety
+//@   ensures typeis(p.Node, "*ast.OperationDefinition") && as(p.Node, "*ast.OperationDefinition") != nil ==> len(knownVariableNames) == 0 && fresh(knownVariableNames)
+// a named operation is reported exactly when its name was seen before; anonymous operations have
+// no name to repeat (their number is the LoneAnonymousOperation rule's concern)
+//@ func UniqueOperationNamesRule$1
+//@   props C02
+//@   nosafety
+//@   assigns class:M|string|ast.Node, class:graphql.ValidationContext, class:E|
+//@   ensures typeis(p.Node, "*ast.OperationDefinition") && as(p.Node, "*ast.OperationDefinition") != nil && as(p.Node, "*ast.OperationDefinition").Name != nil && old(has(knownOperationNames, as(p.Node, "*ast.OperationDefinition").Name.Value)) ==> calls("reportError") == 1
+//@   ensures typeis(p.Node, "*ast.OperationDefinition") && as(p.Node, "*ast.OperationDefinition") != nil && as(p.Node, "*ast.OperationDefinition").Name != nil && !old(has(knownOperationNames, as(p.Node, "*ast.OperationDefinition").Name.Value)) ==> calls("reportError") == 0 && has(knownOperationNames, as(p.Node, "*ast.OperationDefinition").Name.Value)
+//@   ensures typeis(p.Node, "*ast.OperationDefinition") && as(p.Node, "*ast.OperationDefinition") != nil && as(p.Node, "*ast.OperationDefinition").Name == nil ==> calls("reportError") == 0
